@@ -7,6 +7,7 @@ package c16
 import (
 	"fmt"
 	"math/big"
+	"sync"
 	"testing"
 
 	"verifharness/lib/ev"
@@ -415,7 +416,51 @@ func TestPairingNative377(t *testing.T) {
 	pairProperty(t, [][2]string{{"bls12377", "check"}, {"bls12377", "check"}, {"bls12377", "g1"}, {"bls12377", "g2"}}, 24, 1500)
 }
 
+// pairTable is the deterministic minimum every run covers on a curve: both
+// membership verdicts for G1 and G2, a true and a false two-pair equation and a
+// true three-pair equation.
+func pairTable(curve string) []PairCase {
+	return []PairCase{
+		{Curve: curve, Kind: "g1", Seed: "1234567", Member: true},
+		{Curve: curve, Kind: "g1", Seed: "1234568", Member: false},
+		{Curve: curve, Kind: "g2", Seed: "89abcdef", Member: true},
+		{Curve: curve, Kind: "g2", Seed: "89abcdf1", Member: false},
+		{Curve: curve, Kind: "check", A: []string{"5"}, B: []string{"3"}, Delta: "0"},
+		{Curve: curve, Kind: "check", A: []string{"5"}, B: []string{"3"}, Delta: "1"},
+		{Curve: curve, Kind: "check", A: []string{"5", "7"}, B: []string{"3", "2"}, Delta: "0"},
+	}
+}
+
 func TestPairingEmulated(t *testing.T) {
 	t.Parallel()
-	pairProperty(t, [][2]string{{"bn254", "check"}, {"bn254", "g2"}, {"bn254", "g1"}, {"bls12381", "check"}, {"bls12381", "g1"}, {"bls12381", "g2"}}, 14, 600)
+	rec := ev.Get(ID)
+	rec.SetRule(rule)
+	var wg sync.WaitGroup
+	for _, curve := range []string{"bn254", "bls12381"} {
+		wg.Add(1)
+		go func(curve string) {
+			defer wg.Done()
+			for _, c := range pairTable(curve) {
+				if sig := excludedPair(&c, pairOrder(c.Curve)); sig != "" {
+					rec.Discarded("pairing:excluded shape of open finding " + sig)
+					continue
+				}
+				o := runPair(c)
+				switch {
+				case o.Discard:
+					rec.Discarded("pairing:" + o.DiscardWhy)
+				case o.Violation != "":
+					p := rec.Violate("pairing", c, o.Violation)
+					t.Errorf("VIOLATION %s kind=pairing replay=%s: %s", ID, p, trunc(o.Violation, 1200))
+					return
+				default:
+					rec.Count("pairing", c, o.NonTrivial, append(o.Classes, "source:table")...)
+				}
+			}
+		}(curve)
+	}
+	wg.Wait()
+	if ev.Tier() == "thorough" && !t.Failed() {
+		pairProperty(t, [][2]string{{"bn254", "check"}, {"bn254", "g2"}, {"bn254", "g1"}, {"bls12381", "check"}, {"bls12381", "g1"}, {"bls12381", "g2"}}, 1, 600)
+	}
 }
